@@ -640,7 +640,8 @@ def _other_word_layout(da):
 
 def _bad_args(scn, bk, tr, da):
     kind = scn['kind']
-    v = int(tr.shape[0] + da.shape[0] + (int(tr.flat[0]) if tr.size else 0)) % 3        # deterministic variant of the refusal
+    x0 = float(tr.flat[0]) if (tr.size and np.isfinite(tr.flat[0])) else 0.0                  # (the first cell may be one of the non-finite cells)
+    v = int(tr.shape[0] + da.shape[0] + int(x0)) % 3        # deterministic variant of the refusal
     if bk == 'rows':
         return (tr, da[:-1]) if v else (tr[:-1], da)
     if bk == 'length':
